@@ -47,7 +47,7 @@ PROPS = {
    "executable mirror, correspondence and specification oracle.",
    partial="JSON streams containing floats: the encoder's shortest round-tripping decimal (strconv.AppendFloat 'g' -1) is modelled and decided by oracle, not proved"),
  "C02": P("DESIGN.md 7 C02",
-   "Lean 4 proof (full chunk-independence theorem for the CBOR parser: same events and same verdict for every byte string, every chunking, every visitor fault index) + differential correspondence over cut sets",
+   "Lean 4 proof (chunk-independence theorems for the CBOR, JSON and UBJSON parsers: same events and same verdict for every byte string, every chunking, every visitor fault index) + differential correspondence over cut sets",
    "cbor_chunk_independent / cbor_chunk_independent_failAt / cbor_chunkings_agree / cbor_chunk_independent_reach: for every "
    "byte string (valid, invalid, truncated) and every way of cutting it into chunks (empty chunks, single bytes), Write per "
    "chunk + end of input delivers the identical events and the identical verdict (same error value) as whole-buffer Parse, "
@@ -59,9 +59,11 @@ PROPS = {
    "context, valid and mutated, with stack-depth and buffer-length hooks after every chunk; oracle: events and verdict "
    "class equal.",
    "Kernel-checked in full for the CBOR parser and the JSON parser (PropsJson.C02 json_writeChunks_eq_parse, json_chunk_independent: "
-   "same verdict and events for every byte string, chunking and visitor fault index); UBJSON by mirror + correspondence + oracle "
-   "(collect law proved for UBJSON's buffer).",
-   partial="UBJSON parser: no chunk-independence theorem yet (mirror + correspondence + oracle)"),
+   "same verdict and events for every byte string, chunking and visitor fault index) and for the UBJSON parser (PropsUbjP.C02 "
+   "ubj_chunk_independent / _small / _reach, ubj_chunkings_agree, ubj_collect_resume: every byte string, chunking, fault index and reachable state; "
+   "same events, same error value, same final state) up to the MODEL's per-call fuel: the side condition 'neither run exhausted the fuel' "
+   "(decidable form: fewer than 10^6 events + bytes) is shown necessary for the mirror — the Go loop has no fuel.",
+   partial="UBJSON: runs delivering more than 10^6 events (payload-free typed containers, cf. KF-ubj-payload-free-count) are outside the theorem because of the mirror's fuel; decided by correspondence there"),
  "C03": P("DESIGN.md 7 C03",
    "Lean 4 proof (CBOR parser: no panic from any state; no hang with an explicit linear step bound; truncation is an error; exact acceptance) + differential correspondence incl. every byte in every parser context",
    "parse_no_panic / writeChunks_no_panic / feedUntil_no_panic: the CBOR parser never panics on ANY bytes, ANY chunking, "
@@ -260,9 +262,10 @@ PROPS = {
    "stream of basic and extended events, every start state, every fault index (at most one Write ever fails; the failing "
    "event is the one that returns the error)."
    " PropsJson.C16 json_encoder_reports_write_errors / json_encoder_success_iff_no_write_failed; PropsJsonP.C16 json_parser_returns_visitor_error / "
-   "json_writeChunks_returns_visitor_error (every byte string, chunking, fault index). Pull decoders: op `decf` (failing visitor at every event).",
-   "Kernel-checked for the CBOR, UBJSON and JSON encoders and the CBOR and JSON parsers; UBJSON parser, decoders, gotype fold/unfold by mirror + correspondence + oracle.",
-   partial="UBJSON parser, pull decoders, gotype fold/unfold: mirror + exhaustive fault-index correspondence, no theorem yet"),
+   "json_writeChunks_returns_visitor_error (every byte string, chunking, fault index). Pull decoders: op `decf` (failing visitor at every event)."
+   " PropsUbjP.C16 ubj_parser_returns_visitor_error / ubj_writeChunks_returns_visitor_error / ubj_no_visitor_error (unconditional: every byte string, chunking, fault index).",
+   "Kernel-checked for the encoders and the parsers of all three formats; pull decoders, gotype fold/unfold by mirror + correspondence + oracle.",
+   partial="pull decoders, gotype fold/unfold: mirror + exhaustive fault-index correspondence, no theorem yet (Fold: proof in progress)"),
  "C17": P("DESIGN.md 7 C17",
    "Lean 4 proof (documents restore every stack; reuse = fresh by induction on histories) + differential correspondence with depth hooks",
    "cbor_encoder_reuse / cbor_parser_reuse / cbor_parser_idle. Correspondence: ops `reuse-enc` / `reuse-parse` (histories "
